@@ -8,7 +8,7 @@ import sympy as sp
 from ptstat import AnalysisError, algebra
 from ptstat.symval import SymObj, Phi, SymRaise, Builtin, Closure
 from ptstat.world import World
-from .common import eq, fsite, raises, _s
+from .common import world, eq, fsite, raises, _s
 
 EXPLANATION = (
     "Sample.decay_time is interpreted from the current source with symbolic activities, half-lives, "
@@ -24,19 +24,34 @@ EXPLANATION = (
 TECHNIQUE = "static analysis: value graphs of closures captured by abstract interpretation, symbolic differentiation, path-condition extraction"
 
 
-def setup(ctx, rest_times, facts):
-    w = World(ctx.src, loaders=())
+ACT = [sp.Function("Act1", positive=True), sp.Function("Act2", positive=True)]
+_P = lambda n: sp.Symbol(n, positive=True)
+THALF = [_P("Th1"), _P("Th1") + _P("dTh")]      # two products, the second longer lived
+
+
+def setup(ctx, rest_times, facts, activate=True, TH=None):
+    """A Sample whose state is whatever Sample.calculate_activation records, with activation.activity replaced by
+    an oracle that returns, for each of two products, the opaque activity Act_k(T) at every time T it is asked for."""
+    P = lambda n: sp.Symbol(n, positive=True)
+    recs = []
+    sig = [a.arg for a in ctx.src.func("activation.activity").node.args.args]
+    if "rest_times" not in sig:
+        raise AnalysisError("activation.activity has no rest_times parameter")
+
+    def oracle(I_, args, kw):
+        bound = dict(zip(sig, args)); bound.update(kw)
+        from ptstat.symlib import iterate
+        times = iterate(I_, bound["rest_times"])
+        return {r: [A(sp.sympify(T)) for T in times] for r, A in zip(recs, ACT)} if activate else {}
+    w = world(ctx, stubs={"activation.activity": oracle})
     I = w.I
     I.positive = list(facts)
-    S = I.get_class("activation.Sample")
-    smp = I.new_obj("sample", S, open_attrs=set())
-    P = lambda n: sp.Symbol(n, positive=True)
-    recs, act = [], {}
     for k in (1, 2):
-        r = I.new_obj(f"rec{k}", None, {"Thalf_hrs": P(f"Th{k}")}, open_attrs=set())
-        recs.append(r)
-        act[r] = [P(f"I{k}_{j}") for j in range(len(rest_times))]
-    w.set(smp, rest_times=list(rest_times), activity=act)
+        recs.append(I.new_obj(f"rec{k}", None, {"Thalf_hrs": (TH or THALF)[k - 1]}, open_attrs=set()))
+    S = I.get_class("activation.Sample")
+    comp = I.call(I.global_name("formulas", "formula"), [{w.atoms["isotope"]: sp.Integer(1)}], {})
+    smp = I.instantiate(S, [comp, P("M")], {}, name="sample", open_attrs=())
+    I.call(I.getattr(smp, "calculate_activation"), [I.new_obj("env")], {"exposure": P("t_exp"), "rest_times": list(rest_times)})
     captured = {}
     tr, ftr = sp.Symbol("t_root", real=True), sp.Symbol("f_root", real=True)
 
@@ -53,6 +68,10 @@ def setup(ctx, rest_times, facts):
     return w, smp, captured, tr, ftr
 
 
+def _exps(e):
+    return [x for x in sp.preorder_traversal(sp.sympify(e)) if isinstance(x, sp.exp)]
+
+
 def run(ctx):
     P = lambda n: sp.Symbol(n, positive=True)
     target = P("target")
@@ -60,29 +79,34 @@ def run(ctx):
     site = fsite(ctx, "activation.Sample.decay_time")
     ln2 = sp.log(2)
     t = sp.Symbol("t", real=True)
-    L = [ln2 / P("Th1"), ln2 / P("Th2")]
+    A0 = [P("A0_1"), P("A0_2")]
+    # the activities the oracle hands out are those of the decay law: Act_k(T) = A0_k exp(-lam_k T)
+    cons = lambda e: sp.sympify(e).replace(ACT[0], lambda x: A0[0] * sp.exp(-L[0] * x)).replace(ACT[1], lambda x: A0[1] * sp.exp(-L[1] * x))
+    total = lambda tt: sum(a * sp.exp(-l * tt) for a, l in zip(A0, L))
 
-    for label, rts, facts, kmin in (("rest times [T1, T2] with T1 < T2", [T1, T2], [T2 - T1], 0),
-                                    ("rest times [T1, T2] with T2 < T1", [T1, T2], [T1 - T2], 1),
-                                    ("a single rest time", [T1], [], 0)):
-        w, smp, cap, tr, ftr = setup(ctx, rts, facts)
+    for label, rts, facts, TH in (("rest times [T1, T2] with T1 < T2", [T1, T2], [T2 - T1], THALF),
+                                  ("rest times [T1, T2] with T2 < T1", [T1, T2], [T1 - T2], THALF),
+                                  ("rest times [0, T2]", [sp.Integer(0), T2], [T2], THALF),
+                                  ("rest times [T1, 0]", [T1, sp.Integer(0)], [T1], THALF),
+                                  ("a single rest time", [T1], [], THALF),
+                                  ("two products with the same half-life", [sp.Integer(0), T2], [T2], [THALF[0], THALF[0]])):
+        L = [ln2 / th for th in TH]
+        w, smp, cap, tr, ftr = setup(ctx, rts, facts, TH=TH)
         I = w.I
         n0 = len(I.raises)
         res = I.call(I.getattr(smp, "decay_time"), [target], {})
         if "f" not in cap:
             ctx.fail("R1", f"decay_time reaches the root finder ({label})", f"returned {_s(res)} without solving", site)
             continue
-        To = rts[kmin]
-        Ia = [P(f"I{k}_{kmin}") for k in (1, 2)]
-        total = lambda tt: sum(a * sp.exp(-l * (tt - To)) for a, l in zip(Ia, L))
         fv = I.call(cap["f"], [t], {})
-        # R4: f is the activity at absolute time t (from the smallest rest time and its own activities) minus target
-        eq(ctx, "R4", f"f(t) = sum_k I_k(T_min) exp(-lam_k (t - T_min)) - target ({label})", fv, total(t) - target, site)
+        # R4: with the activities of the decay law, f is the activity at absolute time t minus the target,
+        # whatever rest times were requested and in whatever order
+        eq(ctx, "R4", f"f(t) = sum_k A_k(0) exp(-lam_k t) - target, independent of the rest-time list ({label})",
+           cons(fv), total(t) - target, site)
         # R2: df is the derivative of f
         dfv = I.call(cap["df"], [t], {})
-        eq(ctx, "R2", f"df(t) = d f/dt ({label})", dfv, sp.diff(sp.sympify(fv), t), site)
+        eq(ctx, "R2", f"df(t) = d f/dt ({label})", cons(dfv), sp.diff(cons(fv), t), site)
         # R1: early exit: 0 exactly when the activity at removal (t = 0) is at or below the target
-        arms = res if isinstance(res, Phi) else None
         exits0 = []
         def walk(v, conds):
             if isinstance(v, Phi):
@@ -98,16 +122,26 @@ def run(ctx):
         zero = [cs for v, cs in exits0 if v == 0]
         rest = [(v, cs) for v, cs in exits0 if v != 0]
         ok = len(zero) == 1 and len(zero[0]) == 1 and isinstance(zero[0][0], (sp.Le, sp.Lt, sp.Ge, sp.Gt))
+        lhs = None
         if ok:
             c = zero[0][0]
             lhs = c.lhs - c.rhs if isinstance(c, (sp.Le, sp.Lt)) else c.rhs - c.lhs
-            okz, how, wit = algebra.is_zero(lhs - (total(0) - target), ctx.seed)
+            okz, how, wit = algebra.is_zero(cons(lhs) - (total(0) - target), ctx.seed)
             ctx.check(okz, "R1", f"returns 0 exactly when the activity at removal is at or below the target ({label})",
-                      f"the early exit tests {c}, i.e. {_s(lhs)} <= 0, which is not 'activity at t=0 minus target <= 0'",
+                      f"the early exit tests {c}, i.e. {_s(cons(lhs))} <= 0, which is not 'activity at t=0 minus target <= 0'",
                       site, witness=wit, sample=str(c))
         else:
             ctx.fail("R1", f"returns 0 exactly when the activity at removal is at or below the target ({label})",
                      f"early-exit structure not recognised: exits {_s(exits0, 300)}", site)
+        # R5: the activity at removal is a recorded value, not an extrapolation backwards from a later rest time:
+        # a growth factor exp(+lam*T) applied to a stored activity overflows once lam*T > 709 (and the stored
+        # activity has underflowed to 0.0 by then), so the answer would depend on the rest times requested
+        if lhs is not None:
+            grow = [x for x in _exps(lhs) if x.args[0].is_positive or (x.args[0].is_nonnegative and not x.args[0].is_zero)]
+            ctx.check(not grow, "R5", f"the early-exit test uses the activity recorded at removal, with no growth factor exp(+lam*T_rest) ({label})",
+                      f"the test {_s(lhs)} <= 0 multiplies stored activities by {_s(grow)}: OverflowError for lam*T > 709 "
+                      f"(e.g. a 2-minute product and 24 h rest) and a different answer once the stored activity has underflowed",
+                      site, sample=str(lhs))
         # R3: the only other normal exit returns the root and is guarded by the acceptance test
         new_raises = I.raises[n0:]
         rt = [(c, e) for c, e, where in new_raises if e == "RuntimeError"]
@@ -123,16 +157,26 @@ def run(ctx):
                         good = True
         ctx.check(good, "R3", f"a residual above 0.1 % of the target raises RuntimeError instead of returning ({label})",
                   f"no RuntimeError exit guarded by 100*|f(t)|/target > 0.1 (conditional raises seen: {_s(rt, 200)})", site)
-        # the answer does not depend on the rest-time list: with consistent activities f is the same function
-        A0 = [P("A0_1"), P("A0_2")]
-        cons = {P(f"I{k}_{j}"): A0[k - 1] * sp.exp(-L[k - 1] * rts[j]) for k in (1, 2) for j in range(len(rts))}
-        eq(ctx, "R4", f"with consistent activities f(t) does not depend on the rest-time list ({label})",
-           sp.sympify(fv).xreplace(cons), sum(a * sp.exp(-l * t) for a, l in zip(A0, L)) - target, site)
-    ctx.floor("R1", 3); ctx.floor("R2", 3); ctx.floor("R3", 6); ctx.floor("R4", 6)
+        # a second activation of the same sample replaces what decay_time uses (no stale state)
+        if label == "a single rest time":
+            T3 = P("T3")
+            NEW = [sp.Function("Bct1", positive=True), sp.Function("Bct2", positive=True)]
+            old = list(ACT)
+            ACT[:] = NEW
+            try:
+                cap.clear()
+                I.call(I.getattr(smp, "calculate_activation"), [I.new_obj("env2")], {"exposure": P("t_exp2"), "rest_times": [T3]})
+                I.call(I.getattr(smp, "decay_time"), [target], {})
+                fv2 = I.call(cap["f"], [t], {}) if "f" in cap else None
+            finally:
+                ACT[:] = old
+            stale = fv2 is None or any(sp.sympify(fv2).has(a) for a in old) or sp.sympify(fv2).has(T1)
+            ctx.check(not stale, "R4", "decay_time after a second calculate_activation uses the new activities only",
+                      f"f after re-activation is {_s(fv2)}", site)
+    ctx.floor("R1", 6); ctx.floor("R2", 6); ctx.floor("R3", 12); ctx.floor("R4", 7); ctx.floor("R5", 6)
 
     # no activation: documented 0
-    w, smp, cap, tr, ftr = setup(ctx, [T1], [])
-    w.set(smp, activity={})
+    w, smp, cap, tr, ftr = setup(ctx, [T1], [], activate=False)
     r = w.I.call(w.I.getattr(smp, "decay_time"), [target], {})
     ctx.check(r == 0, "R1", "decay_time is 0 when nothing was activated", f"returned {_s(r)}", site)
 
